@@ -381,6 +381,7 @@ def targets(ctx):
                rule="protos/wktlike.proto: user messages / enums named StringValue, BoolValue, Timestamp, Duration, Empty, EnumValue ... as singular, repeated, map-value and oneof fields; round trip and reference view"),
         Target("deep_nesting", deep_ev, cases=deep_cases, exhaustive=True,
                rule="chains of 5, 12, 25, 40, 60 and 90 nested messages through a singular field / repeated field / map value / oneof member / a mix: round trip, len, reference re-encoding, JSON round trip, and at most 400*(depth+2)**2 calls of Message.__eq__"),
+        __import__("vf.props._prog", fromlist=["target"]).target("C01", c, quick=150),
         Target("payload_sizes_around_powers_of_two", size_ev, cases=size_cases, exhaustive=True,
                rule="one bytes / string / nested-message / packed payload of exactly 2**k-1, 2**k, 2**k+1 bytes (k = 7..23, thorough 24) and 3*2**k, 5 MiB, 6 MiB: round trip, len, reference re-encoding"),
         __import__("vf.props.c15", fromlist=["fold_target"]).fold_target(c),
